@@ -14,6 +14,7 @@ func c18(args []string) int {
 		"A session is non-trivial with >= 2 blocks; distinct by full content. " +
 		"frames: sequences of 1-8 valid frames of all ten types and unknown types (DATA/HEADERS/PUSH_PROMISE padding, priority, 0-5 CONTINUATIONs incl. empty fragments, header blocks from one x/net hpack encoder per connection) written by x/net's Framer, parsed by MOSN's MFramer under several chunkings, by x/net's Framer and by the model; every frame writer of MFramer and x/net against the model serialiser. " +
 		"padded frames in boundary shapes: DATA / HEADERS (with and without PRIORITY) / PUSH_PROMISE x content 0,1,2(,20) bytes x pad length 0,1,2,255 (zero content = pad length is everything after the fixed fields; payload of the Pad Length octet only) and the first invalid pad length, each followed by a PING, MFramer vs frame.go Framer vs x/net vs model; " +
+		"rejected blocks: a request whose header block is rejected in the middle (invalid field name / value, pseudo-header after a regular field, header list over the limit) with 1-4 fresh literal fields AFTER the offending field, then a well-formed request on the same connection referring to them: MOSN's decoder table vs the reference decoder fed the same bytes (indexed probes), and the second request's header list vs what the peer encoded; " +
 		"connections: 2-5 responses per real MServerConn (random header maps, 25% larger than one frame => CONTINUATION, 0-2 SETTINGS_HEADER_TABLE_SIZE changes before each) and 1-4 requests per real MClientConn, read back by x/net's Framer + hpack decoder and compared with the header maps that were set; header blocks whose ENCODED size is exactly k*maxFrameSize and +-1 (k=1..3; server split at 16384, client at peer SETTINGS_MAX_FRAME_SIZE in {16384,16385,20000,65535}; size reached by padding one header value, searched against the real encoder) written by the real MServerConn / MClientConn: fragments <= max frame size, END_HEADERS exactly on the last, read back by x/net followed by the next block of the connection; stream-open race: a real MClientConn opens a stream while, exactly when its HEADERS reach the connection, the read goroutine handles the peer's SETTINGS_INITIAL_WINDOW_SIZE change (down to 10/0/999, up from 0/5, up to 100000) or a WINDOW_UPDATE for the new stream; the send window afterwards and the DATA sent against it are checked."
 	ss := newShardSet(run)
 	hpackInts(run, ss)
@@ -29,6 +30,7 @@ func c18(args []string) int {
 	framesWriters(run, ss, run.N(40, 400))
 	framesPreface(run, ss)
 	framesPaddedBoundaries(run, ss)
+	hpackAfterRejectedBlock(run, run.N(40, 400))
 	connHeaders(run, run.N(40, 400))
 	sendHeaderBlocks(run)
 	flowPart(run, ss)
